@@ -330,6 +330,24 @@ func c19Worker(ctx *rt.Ctx, job *rt.Job) []*rt.Violation {
 			}
 		}
 		return vs
+	case "latebad":
+		// a malformed record after 1023 .. 2049 good ones (an ingester that reads ahead in batches must still fail), each
+		// input several times: the failure must not depend on which of two ready events a select happens to take
+		for _, good := range []int{1023, 1024, 1025, 2047, 2048, 2049} {
+			var b strings.Builder
+			b.WriteString("id,K\n")
+			for i := 0; i < good; i++ {
+				fmt.Fprintf(&b, "%d,%d\n", i, i%7)
+			}
+			for _, bad := range []string{"x\n", "x,y,z\n", "x,\"y\n"} {
+				for rep := 0; rep < 3; rep++ {
+					if !run(c19Case{RawHex: hex.EncodeToString([]byte(b.String() + bad))}) {
+						return vs
+					}
+				}
+			}
+		}
+		return vs
 	case "binary":
 		// fields that are not valid UTF-8 and differ in one invalid byte only: every 2-record file over 3 such fields
 		fl := []string{"caf\xe9", "caf\xe8", "ok"}
@@ -453,6 +471,7 @@ func c19Run(ctx *rt.Ctx) []*rt.Violation {
 	add(c19Args{Family: "k4096"}, 1)
 	add(c19Args{Family: "flags"}, 1)
 	add(c19Args{Family: "binary"}, 1)
+	add(c19Args{Family: "latebad"}, 2)
 	if ctx.Thorough() {
 		add(c19Args{Cols: 2, Records: 2}, 32)
 		add(c19Args{Cols: 2, Records: 3, Sub: true}, 16)
